@@ -124,17 +124,19 @@ func (g *Generator) makeStr(typeName string) {
 	}
 
 	var nameList []string
+	var allNames []string
 	valueMap := make(map[string]string)
 	strMap := make(map[string]string)
-	sort.Slice(values, func(i, j int) bool {
+	// Stable: constants that share a value keep their declaration order.
+	sort.SliceStable(values, func(i, j int) bool {
 		if values[i].signed {
 			return int64(values[i].value) < int64(values[j].value)
 		}
 		return values[i].value < values[j].value
 	})
 	var enums []string
-	for _, v := range values {
-		nameList = append(nameList, v.name)
+	for i, v := range values {
+		allNames = append(allNames, v.name)
 		if !v.signed {
 			valueMap[v.name] = fmt.Sprintf("%d", v.value)
 		} else if int64(v.value) < 0 {
@@ -144,10 +146,19 @@ func (g *Generator) makeStr(typeName string) {
 		}
 		shortName := strings.TrimPrefix(v.name, typeName)
 		strMap[v.name] = shortName
+		if i > 0 && values[i-1].value == v.value {
+			// Another name for a value that is already listed (as with stringer, the
+			// first declared name stands for the value): it is still guarded and still
+			// accepted by ValueMap, but the value appears once in Values, Strings and
+			// StringMap, whose constant keys must be distinct.
+			continue
+		}
+		nameList = append(nameList, v.name)
 		enums = append(enums, fmt.Sprintf("'%s'", shortName))
 	}
 
 	g.data.NameList = nameList
+	g.data.AllNames = allNames
 	g.data.Enums = strings.Join(enums, ",")
 	g.data.Max = strings.Join(nameList, " | ")
 	if g.data.Max == "" {
